@@ -12,8 +12,8 @@ const SPEC: Spec = Spec {
         "refint binary shift-subtract division is trusted; cross-checked against Python int on a transcript slice and self-checked by a = q*b + r on every pair",
         "x86_64 / 64-bit digits only (div_half path not built here)",
     ],
-    bounds_quick: "D1 Dense(S8,3)xDense(S8,2) + Dense(S5,4)xDense(S5,3) (all APIs, 4 sign pairs); D2 every shift 0..63, one low digit, dividends Dense(S5,4); D3 Runs(S5,2,10)xRuns(S5,2,5); D4 constructed q*v+r for v in Dense(S8,3) normalised, q in Dense(S8,2), r in {0,1,v-1}, digit shifts 0..2; D5 zero divisor x pool; D6 scalar forms",
-    bounds_thorough: "D1 Dense(S8,4)xDense(S8,3) (all APIs, 4 sign pairs); D2 every shift 0..63, one or two low digits, dividends Dense(S5,4); D3 Runs(S8,2,12)xRuns(S8,2,6); D4; D5; D6",
+    bounds_quick: "D1 Dense(S8,4)xDense(S8,3) (all APIs, 4 sign pairs); D2 every shift 0..63, one or two low digits, dividends Dense(S5,4); D3 Runs(S8,2,12)xRuns(S8,2,6); D4 constructed q*v+r for v in Dense(S8,3) normalised, q in Dense(S8,2), r in {0,1,v-1}, digit shifts 0..2; D5 zero divisor x pool; D6 scalar forms",
+    bounds_thorough: "D1 Dense(S8,4)xDense(S8,4) (all APIs, 4 sign pairs) + Dense(S8,5)xDense(S8,3) (core forms); D2 as quick; D3 Runs(S8,3,12)xRuns(S8,2,8); D4; D5; D6",
     hang_secs: 120,
     probes: Some(probes),
     max_workers: 16,
@@ -479,19 +479,15 @@ fn body(ctx: &mut Ctx) {
     let tier = ctx.tier;
     ctx.set_transcript_every(tier.pick(53, 2003));
     // D1
-    match tier {
-        Tier::Quick => {
-            let a: Vec<Op> = alpha::dense(&alpha::SIGMA8, 3).iter().map(|d| mk(d)).collect();
-            let b: Vec<Op> = alpha::dense(&alpha::SIGMA8, 2).iter().map(|d| mk(d)).collect();
-            product(ctx, "D1a", &a, &b, true);
-            let a: Vec<Op> = alpha::dense(&alpha::SIGMA5, 4).iter().map(|d| mk(d)).collect();
-            let b: Vec<Op> = alpha::dense(&alpha::SIGMA5, 3).iter().map(|d| mk(d)).collect();
-            product(ctx, "D1b", &a, &b, true);
-        }
-        Tier::Thorough => {
-            let a: Vec<Op> = alpha::dense(&alpha::SIGMA8, 4).iter().map(|d| mk(d)).collect();
-            let b: Vec<Op> = alpha::dense(&alpha::SIGMA8, 3).iter().map(|d| mk(d)).collect();
-            product(ctx, "D1", &a, &b, true);
+    {
+        let a: Vec<Op> = alpha::dense(&alpha::SIGMA8, 4).iter().map(|d| mk(d)).collect();
+        let b: Vec<Op> = alpha::dense(&alpha::SIGMA8, 3).iter().map(|d| mk(d)).collect();
+        product(ctx, "D1", &a, &b, true);
+        if tier == Tier::Thorough {
+            let b4: Vec<Op> = alpha::dense(&alpha::SIGMA8, 4).into_iter().filter(|d| d.len() == 4).map(|d| mk(&d)).collect();
+            product(ctx, "D1-4x4", &a, &b4, true);
+            let a5: Vec<Op> = alpha::dense(&alpha::SIGMA8, 5).into_iter().filter(|d| d.len() == 5).map(|d| mk(&d)).collect();
+            product(ctx, "D1-5x3", &a5, &b, false);
         }
     }
     // D2: every normalisation shift
@@ -508,7 +504,7 @@ fn body(ctx: &mut Ctx) {
         for &t in &tops {
             for &l0 in &alpha::SIGMA5 {
                 divisors.push(mk(&[l0, t]));
-                if tier == Tier::Thorough {
+                {
                     for &l1 in &alpha::SIGMA5 {
                         divisors.push(mk(&[l1, l0, t]));
                     }
@@ -521,8 +517,8 @@ fn body(ctx: &mut Ctx) {
     // D3: long operands
     {
         let (a, b): (Vec<Op>, Vec<Op>) = match tier {
-            Tier::Quick => (alpha::runs(&alpha::SIGMA5, 2, 10).iter().map(|d| mk(d)).collect(), alpha::runs(&alpha::SIGMA5, 2, 5).iter().map(|d| mk(d)).collect()),
-            Tier::Thorough => (alpha::runs(&alpha::SIGMA8, 2, 12).iter().map(|d| mk(d)).collect(), alpha::runs(&alpha::SIGMA8, 2, 6).iter().map(|d| mk(d)).collect()),
+            Tier::Quick => (alpha::runs(&alpha::SIGMA8, 2, 12).iter().map(|d| mk(d)).collect(), alpha::runs(&alpha::SIGMA8, 2, 6).iter().map(|d| mk(d)).collect()),
+            Tier::Thorough => (alpha::runs(&alpha::SIGMA8, 3, 12).iter().map(|d| mk(d)).collect(), alpha::runs(&alpha::SIGMA8, 2, 8).iter().map(|d| mk(d)).collect()),
         };
         product(ctx, "D3", &a, &b, false);
     }
